@@ -16,7 +16,11 @@ def spec(s):
     items=[]; i=0
     while i<len(s):
         c=s[i]
-        if c in '*_':
+        if c=='\\':
+            # backslash escape: before ASCII punctuation the next character is literal, otherwise the backslash is
+            if i+1<len(s) and s[i+1] in ASCII_P: items.append(s[i+1]); i+=2
+            else: items.append(c); i+=1
+        elif c in '*_':
             j=i
             while j<len(s) and s[j]==c: j+=1
             o,cl=flank(s,i,j)
